@@ -59,22 +59,28 @@ class Reductions:
 class UpdaterImpl:
     """hdr: S, shape {param: [dims]}, w0 {param: [scaled ints]}, red0, in/out sizes."""
 
-    def __init__(self, hdr: dict):
+    def __init__(self, hdr: dict, conn=None):
         self.hdr = hdr
         self.S = int(hdr["S"])
         self.params = list(hdr["params"])
         self.reds = Reductions()
-        n_in, n_out = int(hdr.get("n_in", 1)), int(hdr["n_out"])
-        delay = 2.0 if "delay" in self.params else None
-        self.conn = LinearDense((n_in,), (n_out,), 1.0, synapse=DeltaCurrent.partialconstructor(100.0),
-                                bias="bias" in self.params, delay=delay)
-        for p in self.params:
-            cur = getattr(self.conn, p)
-            t = self._tensor(hdr["w0"][p], cur.shape)
-            setattr(self.conn, p, t)
         self.ctor_error = None
         red0 = hdr.get("red0", "default")
-        if red0 == "default":
+        if conn is not None:
+            # an existing connection whose updater is already installed (trainers contribute to it)
+            self.conn = conn
+        else:
+            n_in, n_out = int(hdr.get("n_in", 1)), int(hdr["n_out"])
+            delay = 2.0 if "delay" in self.params else None
+            self.conn = LinearDense((n_in,), (n_out,), 1.0, synapse=DeltaCurrent.partialconstructor(100.0),
+                                    bias="bias" in self.params, delay=delay)
+            for p in self.params:
+                cur = getattr(self.conn, p)
+                t = self._tensor(hdr["w0"][p], cur.shape)
+                setattr(self.conn, p, t)
+        if conn is not None:
+            pass
+        elif red0 == "default":
             self.conn.updater = self.conn.defaultupdater()
         else:
             try:
